@@ -13,7 +13,7 @@ import OH.Driver.C11
 import OH.Driver.C18
 import OH.Driver.Py
 import OH.Driver.Syn
-import OH.Spec.Sentence
+import OH.Spec.SentGen
 /-
 `ohdriver`: reads protocol lines on stdin, prints one verdict line per input line.
 Only core + OH.Model/OH.Driver imports (no Mathlib), so it links as a `lean_exe`.
@@ -89,17 +89,22 @@ partial def loop (ref : IO.Ref (Option OH.Driver.C10.Loaded)) (hin : IO.FS.Strea
   hout.putStrLn (← stepIO ref line)
   loop ref hin hout
 
-/-- `ohdriver gen c05 <quick|thorough> <seed>`: the sentence generator of OH/Spec/Sentence.lean prints
+/-- `ohdriver gen c05 <quick|thorough> <seed>`: the sentence generator of OH/Spec/SentGen.lean prints (sentences of OH/Spec/Sent.lean)
 `c05.den <text> A <denoted AST>` operation lines (executed afterwards by the harness on the real
 parser and judged by `OH.Driver.Syn`) -/
 def genC05 (tier : String) (seed : Nat) : IO Unit := do
   let hout ← IO.getStdout
   let n := if tier == "thorough" then 300000 else 8000
-  let mut st := OH.Spec.Sentence.seedState seed
+  let mut st := OH.Spec.SentGen.seedState seed
   for _ in [0:n] do
-    let ((e, txt), st') := OH.Spec.Sentence.genSentence.run st
+    let (s, st') := OH.Spec.SentGen.genSentence.run st
     st := st'
-    hout.putStrLn s!"c05.den {enc (String.ofList txt)} A {joinSp (OH.Driver.Nz.showExpr e)}"
+    -- the theorem `parse (render s) = ok (denote s)` is about well-formed sentences: the generator must
+    -- stay inside them (a sentence outside is printed as a protocol error, never silently dropped)
+    if !s.wf then
+      hout.putStrLn s!"c05.den {enc (String.ofList s.render)} NOT-WF"
+    else
+      hout.putStrLn s!"c05.den {enc (String.ofList s.render)} A {joinSp (OH.Driver.Nz.showExpr s.denote)}"
   hout.flush
 
 def main (args : List String) : IO Unit := do
